@@ -312,3 +312,41 @@ def wrapper_discipline(C, R, cfg, state_adts, rule):
             else:
                 R.ok(rule, '%s|one transition per lock, arguments unchanged|%s' % (fn['path'], pc))
     return n
+
+
+# ------------------------------------------------------------ initial state
+def constructor_state(R, E, F, state_adt, expect, rule):
+    """the state struct's constructor establishes the initial state the inductive arguments start from:
+    expect = {field: ('const', c) | ('param', name) | 'none' | 'empty-queue'}"""
+    from engine import NONE as _NONE
+    news = [fn for fn in F.raw['fns'] if fn.get('impl_adt') == state_adt and fn['kind'] != 'closure'
+            and fn.get('name') == 'new' and not fn.get('impl_trait')]
+    if len(news) != 1:
+        raise CheckerError('anchor=constructor of %s (found %d)' % (state_adt, len(news)))
+    fn = news[0]
+    sites = [1 for f2, s2, cl in scan_aggregates(F, state_adt) if f2['path'] != fn['path'] and not cl]
+    if sites:
+        R.fail(rule, [state_adt, 'constructed-elsewhere'], '%s is also constructed outside its new()' % state_adt)
+    for path in E.run(fn['path']):
+        if path.exit != 'return' or path.ret[0] != 'agg':
+            R.fail(rule, [fn['path'], 'constructor-shape'], 'the constructor does not return an aggregate', None)
+            continue
+        d = dict(path.ret[3])
+        for field, want in expect.items():
+            got = d.get(field)
+            if want == 'none':
+                ok = got == _NONE
+            elif want == 'empty-queue':
+                ok = got is not None and got[0] == 'agg' and got[2] == 'new'
+            elif want[0] == 'zero-id':
+                ok = got is not None and got[0] == 'agg' and got[3] and got[3][0][1] == ('const', 0)
+            else:
+                ok = got == want
+            if ok:
+                R.ok(rule, '%s|%s initialised as expected' % (fn['path'], field))
+            else:
+                from engine import fmt_val as _fv
+                R.fail(rule, [fn['path'], 'initial-state', field],
+                       '%s initialises `%s` with %s (expected %s): the primitive does not start in the state the '
+                       'invariants assume' % (fn['path'], field, _fv(got) if got else None, want),
+                       '%s:%s' % (fn['file'], fn['line']))
